@@ -358,6 +358,18 @@ theorem tie_sequence_counter_advances_atomically :
     (Generated.LocksExporter.accesses.filter (fun a => a.field == "seqNumber" && a.how != "atomic")).map (·.unit) =
       ["InitExportingProcess:pre"] := by decide
 
+/-- "subsequent sends fail instead of vanishing": the result of the connection's `Write` - the byte count and the
+    error - is what the sending functions test and report; no statement after the call assigns those variables
+    again. The event model (and C08 / C09: a send that succeeded put exactly one message on the wire, a template is
+    registered only after it was written) takes "SendSet returned nil" to mean "Write returned (len, nil)"; a
+    send path that turned some error of the real socket into a success (an ICMP-reported ECONNREFUSED on a UDP
+    socket, say, which no in-memory connection ever returns) would break that reading without any input of the
+    correspondence showing it. -/
+theorem tie_write_result_reported_as_is :
+    Generated.LocksExporter.connWrites =
+      [("createAndSendIPFIXMsg", ["bytesSent", "err"]), ("createAndSendJSONMsg", ["bytes", "err"])] ∧
+    Generated.LocksExporter.writeResultRewrites = [] := by decide
+
 /-! ## Non-vacuity -/
 
 def ieU8 : IE := ⟨"protocolIdentifier", 4, .unsigned8, 0, 1⟩
